@@ -18,7 +18,7 @@ Proof.
     destruct (IH _ _ H) as [Hm Hn]. split.
     + intros x Hx. apply Hm. apply in_or_app. left. assumption.
     + intros n [<-|Hin]; [|auto]. unfold pm_name_one in E. destruct (pm_lookup inv t m) as [o'|] eqn:L; [|discriminate].
-      destruct (pm_eval_opt pf (pm_last_service acc) o'); try discriminate. inversion E; subst.
+      destruct (pm_eval_opt pf (pm_frame_sv acc) o'); try discriminate. inversion E; subst.
       exists o. split; [reflexivity|]. apply Hm. apply in_or_app. right. left. reflexivity.
 Qed.
 
@@ -31,7 +31,7 @@ Proof.
   - destruct (pm_name_one pf inv t n0 acc) as [e|o] eqn:E; [discriminate|].
     assert (pm_lookup inv t n0 = Some o) as L0.
     { unfold pm_name_one in E. destruct (pm_lookup inv t n0) as [o'|]; [|discriminate].
-      destruct (pm_eval_opt pf (pm_last_service acc) o'); try discriminate. inversion E; reflexivity. }
+      destruct (pm_eval_opt pf (pm_frame_sv acc) o'); try discriminate. inversion E; reflexivity. }
     destruct (pm_q_plural q t) as [ns|] eqn:P.
     + destruct (pm_name_list_named _ _ _ _ _ _ H) as [Hm Hn]. split.
       * intros x Hx. apply Hm. apply in_or_app. left. assumption.
